@@ -350,6 +350,14 @@ def _convert_buildable(value: Any,
       for tag in value.__argument_tags__[arg_name]:
         arg_val = tag.new(arg_val)
     args.append(kwarg_to_cst(arg_name, conversion_fn(arg_val)))
+  # Tags on arguments that have no value are kept as value-less TaggedValues.
+  for arg_name, tags in value.__argument_tags__.items():
+    if tags and arg_name not in value.__arguments__ and isinstance(arg_name, str):
+      args.append(
+          kwarg_to_cst(
+              arg_name, conversion_fn(tagging.TaggedValue(tags=sorted(tags, key=repr)))
+          )
+      )
   return cst.Call(func=conversion_fn(type(value)), args=args)
 
 
@@ -357,11 +365,14 @@ def _convert_buildable(value: Any,
 def _convert_tagged_value(value: Any,
                           conversion_fn: PyValToCstFunc) -> cst.CSTNode:
   """Converts a fdl.TaggedValue to CST."""
-  node = conversion_fn(value.value)
+  if 'value' in value.__arguments__:
+    node = conversion_fn(value.value)
+  else:
+    node = None  # No value: `Tag.new()`.
   for tag in sorted(value.tags, key=repr, reverse=True):
     node = cst.Call(
         func=cst.Attribute(value=conversion_fn(tag), attr=cst.Name('new')),
-        args=[cst.Arg(node)])
+        args=[cst.Arg(node)] if node is not None else [])
   return node
 
 
